@@ -18,7 +18,8 @@ EXPLANATION = (
     'with each decoder the distance is recovered exactly: rule50Margin returns (100 - clock) - pliesToMate with pliesToMate = 2n - 1 '
     'for the winner and 2n for the loser; TBProbe::extendPV applies the same inequality; Search::notifyPV prints mate n / mate -n; the '
     'TT stores a ply-independent value (read at another ply the score is that of the same n); every mate score of the domain is '
-    'classified by isWinScore / isLoseScore and fits the 16-bit score field.')
+    'classified by isWinScore / isLoseScore and fits the 16-bit score field.'
+    ' (2) a score found by searching after a null move leaves negaScout only after it was shown not to be a win score; (3) the check-evasion generator is complete (a node in check without evasions is scored as mate).')
 UNDECIDED = ('that a reported mate exists (game-tree semantics); soundness of pruning near mate scores (a rule "every pruning is guarded '
              'by normalBound" would also fire on removing a provably redundant conjunct, i.e. on a behaviour-preserving edit - declined).')
 ASSUMPTIONS = ['domain: mates in 0..60 moves at plies 0..40 (covers every distance an 8-bit tablebase state or a search line can encode)']
